@@ -152,7 +152,10 @@ func genThresholds(e *emitter, maxN int) {
 			beh[objOf[60]-1] = []int{2, 0}
 			beh[objOf[61]-1] = []int{0, 2}
 			for i, o := range outs {
-				beh[objOf[i+1]-1] = []int{[]int{0, 2, 3, 0}[o]}
+				// the error outcome runs through the classes of error values: plain, bare multierror with 0..3 components,
+				// multierror wrapped with %w — each is ONE warning, the value the node returned
+				errCode := []int{3, 72, 70, 71, 73, 82, 80}[(v+i)%7]
+				beh[objOf[i+1]-1] = []int{[]int{0, 2, errCode, 0}[o]}
 				if o == 3 {
 					beh[objOf[40+i]-1] = []int{2}
 				}
@@ -292,6 +295,54 @@ func genEmptyGraph(e *emitter, hist []Op, beh [][]int) {
 	}
 }
 
+// ---------- paths: every return path of Send x type of the caller's context x never / before / later cancelled ----------
+// no graph for the type; graph without pipelines (thresholds 0 and 1); one pipeline completing with the thresholds met and
+// not met; one pipeline failing with each class of error value. Each is run with a context.WithCancel caller context and
+// with a context type of the caller's own; the goroutine-leak oracle of execCase looks after every one of them.
+func genPaths(e *emitter) {
+	idType := map[int]int{1: 1, 2: 2, 3: 3}
+	nodes, _ := histFor(idType, []int{1, 2, 3}, nil)
+	pipe := Op{K: "regpipe", Pid: 1, Ety: 1, IDs: []int{1, 2, 3}}
+	type path struct {
+		name string
+		hist []Op
+		beh  [][]int
+	}
+	pass := [][]int{{0}, {0}, {2}}
+	paths := []path{
+		{"no-graph", nodes, pass},
+		{"no-graph-other-type-has-one", append(append([]Op{}, nodes...), Op{K: "regpipe", Pid: 1, Ety: 2, IDs: []int{1, 2, 3}}), pass},
+		{"empty-graph", append(append([]Op{}, nodes...), Op{K: "thr", Ety: 1, V: 0}), pass},
+		{"empty-graph-threshold-error", append(append([]Op{}, nodes...), Op{K: "thr", Ety: 1, V: 1}), pass},
+		{"emptied-graph-threshold-error", append(append([]Op{}, nodes...), pipe, Op{K: "thrs", Ety: 1, V: 1}, Op{K: "rmpipe", Pid: 1, Ety: 1}), pass},
+		{"normal", append(append([]Op{}, nodes...), pipe, Op{K: "thr", Ety: 1, V: 1}, Op{K: "thrs", Ety: 1, V: 1}), pass},
+		{"threshold-error", append(append([]Op{}, nodes...), pipe, Op{K: "thr", Ety: 1, V: 2}), pass},
+		{"filtered-sink-threshold-error", append(append([]Op{}, nodes...), pipe, Op{K: "thrs", Ety: 1, V: 1}), [][]int{{2}, {0}, {2}}},
+	}
+	for _, code := range []int{3, 4, 5, 6, 70, 71, 72, 73, 80, 81, 82, 83} {
+		for pos := 0; pos < 3; pos += 2 {
+			b := [][]int{{0}, {0}, {2}}
+			b[pos] = []int{code}
+			paths = append(paths, path{"node-error", append(append([]Op{}, nodes...), pipe, Op{K: "thr", Ety: 1, V: 1}), b})
+		}
+	}
+	for _, p := range paths {
+		for ctxKind := 1; ctxKind <= 2; ctxKind++ {
+			e.run(Case{Gen: "paths:" + p.name, Hist: p.hist, Ety: 1, Beh: p.beh, Sched: Sched{Ctx: ctxKind}})
+			e.run(Case{Gen: "paths-pre:" + p.name, Hist: p.hist, Ety: 1, Beh: p.beh, Sched: Sched{Ctx: ctxKind, Pre: true}})
+			// cancelled while Send runs (at the first hook that fires, if any) — and, for the paths that never reach a
+			// hook, only after Send has returned (the deferred cancel of execCase)
+			for _, h := range []string{"range.check", "wg.wait", "collector.select"} {
+				pt := Point{Hook: h, P: 0, K: 0, Occ: 1}
+				if h == "range.check" {
+					pt.P = 1
+				}
+				e.run(Case{Gen: "paths-cancel:" + p.name, Hist: p.hist, Ety: 1, Beh: p.beh, Sched: Sched{Ctx: ctxKind, CancelAt: &pt}})
+			}
+		}
+	}
+}
+
 // ---------- cancel: every semantic hook position of an uncancelled reference run x hand-off orders ----------
 type config struct {
 	name string
@@ -353,6 +404,13 @@ func fixedConfigs() []config {
 		beh := [][]int{{5}, {0}, {0}, {5}, {0}}
 		cs = append(cs, config{"c7-equal-errors-sentinel", hist, beh, nil})
 	}
+	// c8: aggregate error values: a bare multierror with two components, an empty one, one wrapped with %w
+	{
+		idType := map[int]int{1: 1, 2: 2, 4: 3, 6: 1, 7: 4}
+		hist, _ := histFor(idType, []int{1, 2, 4, 6, 7}, []pdesc{{1, 1, []int{1, 2, 4}}, {2, 1, []int{6, 2, 4}}, {3, 1, []int{7, 4}}})
+		beh := [][]int{{72}, {0}, {0}, {70}, {83}}
+		cs = append(cs, config{"c8-aggregate-errors", hist, beh, nil})
+	}
 	return cs
 }
 
@@ -398,7 +456,7 @@ func randomSmallConfig(r *hc.Rand, i int) config {
 	for _, id := range ids {
 		n := 1 + r.Intn(3)
 		for j := 0; j < n; j++ {
-			beh[o[id]-1] = append(beh[o[id]-1], []int{0, 0, 0, 1, 2, 3, 3, 4, 5, 6}[r.Intn(10)])
+			beh[o[id]-1] = append(beh[o[id]-1], []int{0, 0, 0, 1, 2, 3, 3, 4, 5, 6, 70, 71, 72, 83}[r.Intn(14)])
 		}
 		if r.Chance(1, 6) {
 			gate = append(gate, o[id])
@@ -525,7 +583,7 @@ func genRandom(e *emitter, r *hc.Rand, n int) {
 		for o := 0; o < nobj; o++ {
 			l := 1 + r.Intn(3)
 			for j := 0; j < l; j++ {
-				beh[o] = append(beh[o], []int{0, 0, 0, 0, 0, 1, 1, 2, 3, 3, 4, 5, 6}[r.Intn(13)])
+				beh[o] = append(beh[o], []int{0, 0, 0, 0, 0, 0, 1, 1, 2, 3, 3, 4, 5, 6, 70, 71, 72, 73, 80, 82}[r.Intn(20)])
 			}
 			if r.Chance(1, 12) {
 				gate = append(gate, o+1)
